@@ -238,6 +238,7 @@ SCHEMA = [
     'CREATE TABLE "U" ("id" INTEGER PRIMARY KEY AUTOINCREMENT)',
     'CREATE TABLE "T_U" ("t" INTEGER NOT NULL REFERENCES "T" ("id") ON DELETE CASCADE, "u" INTEGER NOT NULL REFERENCES "U" ("id") ON DELETE CASCADE, PRIMARY KEY ("t", "u"))',
     'CREATE INDEX "idx_t_u" ON "T_U" ("u")',
+    'CREATE TABLE "W" ("id" INTEGER PRIMARY KEY AUTOINCREMENT, "t" INTEGER UNIQUE NOT NULL REFERENCES "T" ("id") ON DELETE CASCADE)',
 ]
 
 
@@ -248,6 +249,7 @@ def create_file(path, rows=6):
     con.executemany('INSERT INTO "T" ("id", "v", "name", "a", "b") VALUES (?, 0, ?, ?, ?)', [(i, 'n%d' % i, i, 10 * i) for i in range(1, rows + 1)])
     con.executemany('INSERT INTO "U" ("id") VALUES (?)', [(i,) for i in (1, 2, 3)])
     con.execute('INSERT INTO "T_U" ("t", "u") VALUES (1, 1)')
+    con.executemany('INSERT INTO "W" ("id", "t") VALUES (?, ?)', [(i, i) for i in range(1, rows + 1)])
     con.commit(); con.close()
 
 
@@ -266,6 +268,11 @@ def make_db(path, rows=6, prefill=True, **bind_kwargs):
         b = orm.Optional(int)
         orm.composite_key(a, b)
         us = orm.Set('U')
+        w = orm.Optional('W')
+    class W(db.Entity):
+        _table_ = 'W'
+        id = orm.PrimaryKey(int, auto=True)
+        t = orm.Required(T)
     class U(db.Entity):
         _table_ = 'U'
         id = orm.PrimaryKey(int, auto=True)
@@ -290,6 +297,9 @@ def run_op(db, T, op, arg):
     elif op == 'forupd': T.get_for_update(id=arg)
     elif op == 'forupd_u': T.get_for_update(name='n%d' % arg)
     elif op == 'forupd_c': T.get_for_update(a=arg, b=10 * arg)
+    elif op == 'loadw': db.W[arg]
+    elif op == 'forupd_r': db.W.get_for_update(t=T[arg])          # one-to-one, the side that has the column
+    elif op == 'forupd_rt': T.get_for_update(w=db.W[arg])         # one-to-one, the side without a column
     elif op == 'qforupd': orm.select('t for t in T if t.id == x', {'T': T, 'x': arg}).for_update()[:]
     elif op == 'new': T(v=arg)
     elif op == 'set': T[arg].v = T[arg].v + 100
@@ -886,43 +896,56 @@ class FakePgCursor(object):
         u = ' '.join(sql.split()).upper()
         kind = ('set_serializable' if u.startswith('SET TRANSACTION ISOLATION LEVEL SERIALIZABLE') else 'discard' if u.startswith('DISCARD ALL')
                 else 'select' if u.startswith('SELECT') else 'write' if u.startswith(('INSERT', 'UPDATE', 'DELETE')) else 'other:' + u[:30])
-        self.con.log('execute:' + kind)
-        if not self.con._ac: self.con.dtx = True
+        ok = self.con.call('execute:' + kind)
+        if not self.con._ac: self.con.dtx = True          # psycopg2 sends BEGIN first, also when the statement then fails
+        if not ok: self.con.fail()
     def fetchone(self): return None
     def fetchmany(self, n=None): return []
     def fetchall(self): return []
 
 
 class FakePgConnection(object):
-    """stands in for a psycopg2 connection: records every call together with `autocommit` and whether a transaction is open"""
-    def __init__(self, events, ac0):
-        self.__dict__['events'] = events
+    """stands in for a psycopg2 connection: records every call together with `autocommit` and whether a transaction is open;
+    the calls whose index is in ctl['faults'] raise psycopg2.ProgrammingError (should_reconnect is False for it)"""
+    def __init__(self, ctl, ac0):
+        self.__dict__['ctl'] = ctl
         self.__dict__['_ac'] = ac0
         self.__dict__['dtx'] = False
-        self.__dict__['bad'] = False
         self.__dict__['server_version'] = 90600
-    def log(self, what): self.events.append([what, self._ac, self.dtx])
+    def call(self, what):
+        c = self.ctl
+        if not c['armed']:
+            return True
+        k = c['n']; c['n'] += 1
+        ok = k not in c['faults']
+        c['events'].append([what, ok, self._ac, self.dtx])
+        return ok
+    def fail(self):
+        import psycopg2
+        raise psycopg2.ProgrammingError('injected')
     @property
     def autocommit(self): return self._ac
-    @autocommit.setter
-    def autocommit(self, v):
-        self.log('autocommit:%s' % bool(v))
-        if self.dtx: self.__dict__['bad'] = True
-        self.__dict__['_ac'] = bool(v)
     def __setattr__(self, k, v):
-        if k == 'autocommit': type(self).autocommit.fset(self, v)
+        if k == 'autocommit':
+            if self.ctl['armed']: self.ctl['events'].append(['autocommit:%s' % bool(v), True, self._ac, self.dtx])
+            if self.dtx: self.ctl['bad'] = True
+            self.__dict__['_ac'] = bool(v)
         else: self.__dict__[k] = v
     def set_client_encoding(self, enc): pass
     def cursor(self): return FakePgCursor(self)
     def commit(self):
-        self.log('commit'); self.dtx = False
+        if self.call('commit'): self.dtx = False
+        else: self.fail()
     def rollback(self):
-        self.log('rollback'); self.dtx = False
-    def close(self): self.log('close')
+        if self.call('rollback'): self.dtx = False
+        else: self.fail()
+    def close(self):
+        ok = self.call('close'); self.dtx = False
+        if not ok: self.fail()
 
 
 def pg_cases(payload):
-    """Real PGProvider.set_transaction_mode / PGPool.release / SessionCache code on a recording stub connection."""
+    """Real Database / PGProvider.set_transaction_mode / PGPool.release / SessionCache code on a recording, fault-injecting stub connection."""
     sys.path.insert(0, os.path.dirname(os.path.abspath(__file__)))
     import vlib, types
     from pony import orm
@@ -930,25 +953,29 @@ def pg_cases(payload):
     from pony.orm.dbproviders.postgres import PGPool
     outs = []
     for case in payload['cases']:
-        events = []
-        fake = types.SimpleNamespace(connect=lambda *a, **k: FakePgConnection(events, case.get('ac0', False)))
+        ctl = {'armed': False, 'n': 0, 'faults': set(case.get('faults', [])), 'events': [], 'bad': False}
+        fake = types.SimpleNamespace(connect=lambda *a, **k: FakePgConnection(ctl, False))
         db = orm.Database('postgres', pony_pool_mockup=PGPool(fake))     # the real Database / PGProvider / PGPool on the stub driver
-        del events[:]                                                     # calls made by bind(): connect, inspect, release
+        ctl['armed'] = True
         excs = []
         for shape, ops, fail in case['sessions']:
             try:
                 with orm.db_session(**session_kwargs(shape)):
-                    for op in ops:
-                        if op == 'select': db.select('select id from t', {}, {})
-                        elif op == 'write': db.execute('insert into t (v) values (1)', {}, {})
-                        elif op == 'commit': orm.commit()
-                        elif op == 'rollback': orm.rollback()
+                    for op, catch in ops:
+                        try:
+                            if op == 'select': db.select('select id from t', {}, {})
+                            elif op == 'write': db.execute('insert into t (v) values (1)', {}, {})
+                            elif op == 'commit': orm.commit()
+                            elif op == 'rollback': orm.rollback()
+                        except Exception:
+                            if not catch: raise
                     if fail: raise BodyError('body')
                 excs.append('none')
             except BaseException as e:
                 excs.append(exc_enum(e))
-        con = db.provider.pool.con
-        outs.append({'events': events, 'excs': excs, 'bad': bool(con.bad) if con is not None else False})
+        ctl['armed'] = False
+        from pony.orm import core
+        outs.append({'events': ctl['events'], 'excs': excs, 'bad': bool(ctl['bad']), 'db2cache_empty': not core.local.db2cache})
     return outs
 
 
